@@ -156,6 +156,23 @@ def _l2_traces(ctx, prop, histories=None, scn_name='base'):
                 h += [('Cycle', []), ('Cycle', []),
                       ('Probe', [free[0], rng.randrange(len(scn2['aprofiles'])) + 1])]
                 histories.append(h)
+            # an identity group used up, a holder's server and the holder itself gone in
+            # ONE batch of events; then a probe of the same group
+            gp = [i + 1 for i, p in enumerate(scn2['aprofiles']) if p.get('identity_group')]
+            srv = sorted(s for s, k in scn2['server_init'].items() if k)
+            for _ in range(n // 3):
+                k = rng.randrange(1, 3)
+                g = scn2['aprofiles'][gp[0] - 1]['identity_group']
+                h = [('SetGroup', [g, k])] + [('CreateApp', [a, rng.choice(gp)]) for a in scn2['apps'][:k]]
+                h += [('Cycle', []), ('Defer', [])]
+                for s in rng.sample(srv, rng.randrange(1, len(srv))):
+                    h += [('NodeDown', [s])] if rng.random() < 0.5 else []
+                    h += [('DeleteServer', [s])]
+                for a in rng.sample(scn2['apps'][:k], rng.randrange(1, k + 1)):
+                    h += [('DeleteApp', [a])]
+                h += [('Deliver', []), ('Cycle', []), ('Cycle', []),
+                      ('Probe', [scn2['apps'][k], rng.choice(gp)])]
+                histories.append(h)
         if prop in ('C01', 'C03', 'C04', 'C08'):
             histories += [mcm.gen_servers(mcm.SCENARIOS['base'], rng, rng.choice([5, 8, 12]))
                           for _ in range(n // 2)]
